@@ -23,6 +23,8 @@ func (v *V) Key() string {
 		return "actor:" + v.N.Label
 	case "activity":
 		return "act:" + v.ActorV.Key() + ">" + v.Target.Key()
+	case "rawnote":
+		return "post:?" // an entry that is a bare object of a post type without name or id: a (nameless) post when nothing is tested
 	}
 	return "FAIL"
 }
@@ -194,6 +196,36 @@ func (w *World) Children(v *V) []*V {
 		})
 	case "activity":
 		return w.Children(v.Target)
+	}
+	return nil
+}
+
+// RawItems is what a collection shows when it is opened by its own address: every entry as whatever it is, in order, without
+// the tests that apply to it as somebody's timeline or comment section (there is no owner to test against).
+func (w *World) RawItems(c *Coll) []*V {
+	return w.collSeq(c, func(e *Edge) *V {
+		if m, ok := e.Raw.(map[string]any); ok && e.HasRaw {
+			if t, _ := m["type"].(string); t == "Note" || t == "Article" || t == "Page" {
+				return &V{Kind: "rawnote"}
+			}
+			return Fail
+		}
+		n := w.Resolve(e, c.Host)
+		if n == nil {
+			return Fail
+		}
+		return w.ViewOf(n)
+	})
+}
+
+// CollByID finds a collection of the world by its address.
+func (w *World) CollByID(id string) *Coll {
+	for _, n := range w.Nodes {
+		for _, c := range []*Coll{n.Outbox, n.Replies} {
+			if c != nil && c.ID == id {
+				return c
+			}
+		}
 	}
 	return nil
 }
